@@ -58,7 +58,7 @@ def run(res, tier, seed, driver_ok):
                 if mode != 'plain':
                     sp.move(tm(list(base6)))
                 sp.setMasses(rnd.uniform(1, 5), rnd.uniform(0.2, 1), rnd.uniform(0.2, 1), top_plate_mass=rnd.uniform(1, 5))
-                sp.setCOG(0.2 * g['lmin'], 0.2 * g['lmin'])
+                sp.setCOG(rnd.uniform(0.1, 0.3) * g['lmin'], rnd.uniform(0.1, 0.45) * g['lmin'])      # motor and shaft centres of gravity at DIFFERENT distances
         except Exception as e:
             bad('raises:setup:%s' % type(e).__name__, 'setting a platform up raised', {'mode': mode}, repr(e)[:200]); continue
         h = sp._nominal_height
